@@ -192,7 +192,7 @@ func c06Ops(variant ...string) []condOp {
 	}
 	exs := c06Expressions()
 	if c06QuickAlphabet {
-		// the quick tier leaves out expressions whose class is represented by another one (a second alias form,
+		// the quick tier leaves out expressions whose class is represented by another one (a second Condition alias form,
 		// a second numeric extreme, a second text with a fmt verb); the thorough tier runs them all
 		var few []struct {
 			n  string
@@ -200,7 +200,7 @@ func c06Ops(variant ...string) []condOp {
 		}
 		for _, e := range exs {
 			switch e.n {
-			case "int64(min)", `"100%s"`, "true", "CondAlias(x>y)", "aliasS(And(a,b))":
+			case "int64(min)", `"100%s"`, "true", "CondAlias(x>y)":
 				continue
 			}
 			few = append(few, e)
